@@ -148,7 +148,7 @@ def u_reject():
         cls = I.repo.get(KD)
         I.instantiate(cls, [D], dict(metric_params={'cell_length': cell}))
         I.ob('reject[C17]:mismatched-cell-dimension-is-rejected', BoolVal(False), kind='post')
-    return Unit('SparseKDE[mismatched-cell]', body, functions=[KD + '.__init__', KD + '._check_dimension'], on_raise=lambda I, st, r: r.kind == 'ValueError')
+    return Unit('SparseKDE[mismatched-cell]', body, functions=[KD + '.__init__', KD + '._check_dimension'], on_raise=lambda I, st, r: r.kind == 'ValueError', reject_name='reject[C17]:mismatched-cell-dimension-is-rejected')
 
 
 # ------------------------------------------------------------------ the assignment loop: _NearestGridAssigner.fit / predict
